@@ -214,6 +214,27 @@ def check(src, rep):
             rep.ok("R2", "status octet", f"for each value class of the peeked octet ({[hex(r) for r, _ in classes]}) the conditional members consume exactly one octet; Peek consumes none")
     # ---------------------------------------------------------------- R4 computed value
     _computed(rep, le, comp, file)
+    # every Check of the struct holds for every valid date-time with a specified time of day (it may only reject unspecified times)
+    checks = [s for s in subs if s.kind == "Check"]
+    badc = 0
+    for c in checks:
+        ex = c.a.get("expr")
+        if not isinstance(ex, Expr):
+            continue
+        for year in (1, 1970, 1999, 2000, 2021, 2099, 2100, 9999):
+            for (mo, d, h, mi, se) in ((1, 1, 0, 0, 0), (12, 31, 23, 59, 59), (2, 29, 12, 30, 30)):
+                ctx = Ctx({"year": year, "month": mo, "day_of_month": d, "day_of_week": 1, "hour": h, "minute": mi, "second": se, "hundredths_of_second": None, "deviation": None,
+                           "clock_status_byte": 0xFF, "clock_status": None})
+                try:
+                    ok_ = le.call_lambda(ex.node, [ctx], "cosem") if isinstance(ex.node, (ast.Lambda, ast.FunctionDef)) else le.eval_this(ex.node, ctx, "cosem")
+                except NotConstant as e:
+                    raise Undecided(f"Check of DateTime outside the evaluable subset: {e}")
+                if not ok_ and not badc:
+                    badc += 1
+                    rep.violation("R1", "cosem.DateTime", "check-rejects-valid", "a Check of the date-time struct rejects a valid date-time with a specified time of day: such clocks (e.g. a meter clock reset to an early year) are not decoded at all",
+                                  file, c.line or dt.line, witness=f"year={year} month={mo} day={d} {h}:{mi}:{se}: {ex.src[:80]}")
+    if checks and not badc:
+        rep.ok("R1", f"{len(checks)} Check member(s)", "accept every sampled valid date-time with a specified time of day (years 1..9999)")
     # ---------------------------------------------------------------- R5 routes
     _routes(rep, w, dt, src)
     # ---------------------------------------------------------------- R6 normalisers
@@ -227,7 +248,7 @@ def _computed(rep, le, comp, file):
     bad = 0
     n = 0
     for hund in (None, 0, 1, 50, 99):
-        for dev in (None, 0, 60, -60, 120, 720, -720):
+        for dev in (None, 0, 60, -60, 120, 720, -720, 1, -1, 210, -210, 570, 719, -719):
             for dst in (0, 1):
                 status = Ctx({"invalid_value": 0, "doubtful_value": 0, "different_clock_base": 0, "invalid_clock_status": 0, "daylight_saving_active": dst})
                 ctx = Ctx({"year": 2021, "month": 7, "day_of_month": 15, "day_of_week": 4, "hour": 13, "minute": 37, "second": 58, "hundredths_of_second": hund, "deviation": dev,
@@ -330,7 +351,7 @@ def _normalisers(rep, M, src):
     """every normaliser stores the struct's datetime member unchanged: decided by the decoders' own abstract evaluation (E-ABS), where the clock is a symbolic value"""
     from sa.cross import include
     include(rep, src, "C07", {"R5"}, "R6", "the Aidon normaliser stores the clock element's datetime unchanged")
-    include(rep, src, "C08", {"R4"}, "R6", "the Kaifa normalisers store the list clock / APDU date-time unchanged")
+    include(rep, src, "C08", {"R1", "R4"}, "R6", "the Kaifa normalisers store the list clock / APDU date-time unchanged, in every documented layout")
     include(rep, src, "C09", {"R5"}, "R6", "the Kamstrup normalisers store the list clock / APDU date-time unchanged")
 
 
